@@ -108,3 +108,83 @@ package file
 //@     requires len(j.tail) < fpos - ls ==> w.maxEventSize != 0 && len(j.tail) >= w.maxEventSize && (!w.cutOffEventByLimit ==> len(j.tail) > w.maxEventSize)
 //@     requires w.maxEventSize != 0 && w.cutOffEventByLimit ==> seqeq(j.tail[:min(len(j.tail), w.maxEventSize)], content, ls)
 //@     preserves worker
+
+// ---------------------------------------------------------------------------
+// C07: offsets file.
+//
+// save protocol (for every failure pattern of open / write / sync / rename - each
+// callee may fail on any call): the temporary file is renamed over the current
+// one only after it was opened, completely written and synced without error.
+
+//@ func (*offsetDB).save
+//@   ghost opened bool = false
+//@   ghost wrote bool = false
+//@   ghost synced bool = false
+//@   ghost nrename int = 0
+//@   ensures nrename <= 1 && (nrename == 1 ==> opened && wrote && synced)
+//@   loop 1 invariant !wrote && !synced && nrename == 0 && opened
+//@   loop 2 invariant !wrote && !synced && nrename == 0 && opened
+//@   callee OpenFile(name, flag, perm) (f, err)
+//@     pure
+//@     set opened := err == nil
+//@   callee Write(b) (n, err)
+//@     requires opened && !wrote
+//@     pure
+//@     set wrote := err == nil
+//@   callee Sync() (err)
+//@     requires wrote
+//@     pure
+//@     set synced := err == nil
+//@   callee Rename(a, b) (err)
+//@     requires opened && wrote && synced && nrename == 0
+//@     pure
+//@     set nrename := nrename + 1
+//@   callee Remove(n)
+//@     pure
+//@   callee Close()
+//@     pure
+//@   callee snapshotJobs(m, j)
+//@     preserves offsetDB
+//@   callee Uint64()
+//@     pure
+//@   callee getUnixNanoTimestamp()
+//@     pure
+//@   callee Lock()
+//@     pure
+//@   callee Unlock()
+//@     pure
+
+// parseLine: (value, rest) are exactly the text between the prefix and the first
+// newline, and everything after that newline; an error iff the content is empty,
+// has no newline, or the first line does not start with the prefix.
+
+//@ func (*offsetDB).parseLine
+//@   ghost nl int = 0
+//@   pure
+//@   ensures result2 == nil ==> 0 <= nl && nl < len(content) && content[nl] == '\n' && nochr(content[:nl], '\n') && len(prefix) <= nl
+//@   ensures result2 == nil ==> off(result0) == off(content) + len(prefix) && len(result0) == nl - len(prefix)
+//@   ensures result2 == nil ==> off(result1) == off(content) + nl + 1 && len(result1) == len(content) - nl - 1
+//@   ensures result2 != nil ==> len(content) == 0 || nl < 0 || len(prefix) > nl || content[:len(prefix)] != prefix
+//@   callee IndexByte(s, c) (r)
+//@     set nl := r
+//@   callee safeSubstring(s, n)
+//@     pure
+
+//@ func safeSubstring
+//@   requires length >= 0
+//@   pure
+
+//@ func (*offsetDB).parseOptionalLine
+//@   pure
+//@   ensures !(len(content) >= len(prefix) && content[:len(prefix)] == prefix) ==> result2 == nil && len(result0) == 0 && off(result1) == off(content) && len(result1) == len(content)
+
+// parseStreams: a stream line written as "    <name>: <number>" is split at the
+// writer's separator whatever characters the name contains (':' and ": "
+// included), provided the number has no ':' - i.e. at the LAST colon.
+// The slice after the separator is not proved safe for arbitrary garbage lines.
+
+//@ func (*offsetDB).parseStreams
+//@   assume-safe "offsetStr := line[pos+2:]" only lines produced by the writer are in scope
+//@   assert at "stream := pipeline.StreamName(line[4:pos])" forall k :: (0 <= k && 4 + k + 1 < len(line) && line[4+k] == ':' && line[4+k+1] == ' ' && nochr(line[4+k+1:], ':')) ==> pos == 4 + k
+//@   callee parseLine(c, p)
+//@     requires true
